@@ -333,8 +333,6 @@ Definition mem (x : bytes) (l : list bytes) : bool := existsb (lbeq x) l.
 Definition subset (a b : list bytes) : bool := forallb (fun x => mem x b) a.
 Definition meets (a b : list bytes) : bool := existsb (fun x => mem x b) a.
 
-Definition any_clash (l : list value) : bool := existsb (fun a => existsb (fun b => clash a b) l) l.
-
 (* the class of a case, given which laws failed: every failing law must be excused by a class the case is in *)
 Definition law_class (l : list value) (failing : list bytes) : bytes :=
   let cn := existsb has_nan l in
@@ -499,7 +497,7 @@ Definition conv_predict (t : sig) (x : sv) : bytes :=
   let v := into_value x in
   match from_value t v with
   | Panic _ => B "PANIC"
-  | r => show_value v ++ B " " ++ show (value_signature v) ++ B " " ++ [tfc (wfb v)] ++ B " "
+  | r => show_value v ++ B " " ++ show (value_signature v) ++ B " " ++ [tfc (wfb v)] ++ B " " ++ show_sv x ++ B " "
          ++ match r with Ok y => B "OK:" ++ show_sv y | _ => B "ERR" end
   end.
 
@@ -511,8 +509,8 @@ Definition run_conv (ty text obs : bytes) : outp :=
           let m := verdict (conv_predict t x) obs in
           let failing :=
             match words obs with
-            | [_; _; en; back] =>
-                (if lbeq back (B "OK:" ++ show_sv x) then [] else [B "roundtrip"]) ++
+            | [_; _; en; inp; back] =>        (* inp = the std value as the implementation printed it before converting *)
+                (if lbeq back (B "OK:" ++ inp) then [] else [B "roundtrip"]) ++
                 (if lbeq en (B "T") then [] else [B "enc"])
             | _ => [B "roundtrip"]
             end in
